@@ -269,11 +269,11 @@ def env_name(e):
     return "thr=%s,%s%s" % (e["OMP_NUM_THREADS"], e.get("OMP_SCHEDULE", "-"), ",dyn" if e.get("OMP_DYNAMIC") else "")
 
 
-def run_env(ctx, env, trajs, analyses, repeats, perm_seed):
+def run_env(ctx, env, trajs, analyses, repeats, perm_seed, timeout=900):
     e = dict(env)
     e["OMP_WAIT_POLICY"] = "passive"       # do not spin on an oversubscribed machine (does not affect results)
     return ctx.run_impl("sched_impl.py", {"trajs": trajs, "analyses": analyses, "perm_seed": perm_seed, "repeats": repeats},
-                        env=e, timeout=3000)["results"]
+                        env=e, timeout=timeout)["results"]
 
 
 # ------------------------------------------------------------------------------------------ the sweep
@@ -283,26 +283,31 @@ def sweep(ctx, trajs, envs, analyses, repeats, perm_seed):
     sasa_obs = []          # (env, traj id, analysis, n_frames, fresh-frame list, arithmetic ok)
     nf = {t["id"]: n_frames_of(t) for t in trajs}
     stats = {"triples": 0, "hash_comparisons": 0}
+    dead = set()           # analyses that killed / hung the interpreter: reported once, then left out
     for env in envs:
+        live = [a for a in analyses if a not in dead]
         try:
-            res = run_env(ctx, env, trajs, analyses, repeats, perm_seed)
-        except RuntimeError as e:
-            # the interpreter died (abort/segfault inside a kernel): find the analysis and report it as a failing input
+            res = run_env(ctx, env, trajs, live, repeats, perm_seed, timeout=300 if ctx.tier == "quick" else 900)
+        except (RuntimeError, subprocess.TimeoutExpired) as e:
+            # the interpreter died or hangs (abort/segfault/deadlock inside a kernel): find the analysis and report it
             res = {}
             found = False
-            for tr in trajs:
-                for name in analyses:
+            for name in live:
+                for tr in trajs:
+                    if name in dead:
+                        break
                     try:
-                        r1 = run_env(ctx, env, [tr], [name], repeats, perm_seed)
+                        r1 = run_env(ctx, env, [tr], [name], repeats, perm_seed, timeout=120)
                         res.setdefault(tr["id"], {}).update(r1.get(tr["id"], {}))
-                    except RuntimeError as e1:
+                    except (RuntimeError, subprocess.TimeoutExpired) as e1:
                         found = True
-                        ctx.fail("per-frame analysis kills the interpreter under an OpenMP environment (%s)" % name,
+                        dead.add(name)
+                        ctx.fail("per-frame analysis kills or hangs the interpreter under an OpenMP environment (%s)" % name,
                                  {"env": env, "traj": tr, "analysis": name, "repeats": repeats, "perm_seed": perm_seed},
                                  observed=str(e1)[-300:], expected="a result", tags={"analysis": name, "kind": "crash", "explained_by": None})
             if not found:
                 ctx.fail("the analyses kill the interpreter when run together under an OpenMP environment (not reproduced one by one)",
-                         {"env": env, "traj": trajs[0], "analysis": analyses[0], "repeats": repeats, "perm_seed": perm_seed},
+                         {"env": env, "traj": trajs[0], "analysis": live[0], "repeats": repeats, "perm_seed": perm_seed},
                          observed=str(e)[-300:], expected="results", tags={"kind": "crash", "explained_by": None})
         en = env_name(env)
         for tid, rr in res.items():
